@@ -739,8 +739,8 @@ def cloneV : Nat → Heap → V → Except Err (Heap × V)
 /-- `operator double()` of a numeric Var -/
 def numOf : V → Option Dy
   | .int i => some (Dy.ofInt i)
-  | .num d => some d
-  | .flt d => some d
+  | .num d => some (Dy.norm d.m d.e)      -- the value, whatever pair represents it
+  | .flt d => some (Dy.norm d.m d.e)
   | _ => none
 
 /-- `bool Var::operator==(const Var& other) const`, branch by branch -/
@@ -751,8 +751,8 @@ def eqV : Nat → Heap → V → V → Except Err Bool
     | .str a, .sstr b => .ok (a == b)                 -- strcmp
     | .sstr a, .str b => .ok (a == b)
     | .int i, _ => .ok (numOf w == some (Dy.ofInt i))  -- double x = *this; return other == x;
-    | .num d, _ => .ok (numOf w == some d)
-    | .flt d, _ => .ok (numOf w == some d)
+    | .num d, _ => .ok (numOf w == some (Dy.norm d.m d.e))
+    | .flt d, _ => .ok (numOf w == some (Dy.norm d.m d.e))
     | .bool a, .bool b => .ok (a == b)
     | .str a, .str b => .ok (a == b)
     | .sstr a, .sstr b => .ok (a == b)
